@@ -370,6 +370,20 @@ def _calls():
     def emul(f, m, lines):
         return EH.emul_lines(f.m[m], lines)
 
+    def transient(f, bind_w, e):
+        """a machine that lives for this one call: created, asked once, released (its memory can be handed to the next
+        machine the process creates); with bind_w the identifier w is bound to 7 in it"""
+        import gc
+        out = []
+        for _ in range(6):          # six lifetimes in a row: whatever an earlier machine left behind, one of these inherits its address
+            m = EH.x86_machine()
+            if bind_w:
+                m.pool[f.w] = E.ExprInt32(7)
+            out.append(m.eval_expr(e, {}))
+            del m
+            gc.collect()
+        return out
+
     T = {
         'dis_mov': ('pure', 0, lambda f: mn.dis(f.lit['b_mov'])),
         'dis_shl': ('pure', 0, lambda f: mn.dis(f.lit['b_shl'])),
@@ -410,6 +424,8 @@ def _calls():
         'eval_mem_m1': ('read', 1, lambda f: ev(f, 1, f.Q)),
         'eval_abs_m1': ('read', 1, lambda f: ev(f, 1, f.Q2)),
         'eval_abs_m2': ('read', 2, lambda f: ev(f, 2, f.Q2)),
+        'tmp_eval_w': ('pure', 0, lambda f: transient(f, False, f.w)),
+        'tmp_eval_w7': ('pure', 0, lambda f: transient(f, True, f.U)),
         'new_machine': ('pure', 0, lambda f: sorted((str(k), str(v)) for k, v in EH.x86_machine().pool.pool_id.items())),
         'evi_add_m1': ('write', 1, lambda f: evi(f, 1, f.I_add)),
         'emul_pp_m1': ('write', 1, lambda f: emul(f, 1, [f.I_push, f.I_pop])),
